@@ -99,7 +99,8 @@ def unpack(ct, b):
 
 
 class Kernel:
-    def __init__(self, name, ret, args, body, key=None, mode="ub", family=None):
+    def __init__(self, name, ret, args, body, key=None, mode="ub", family=None, std=None):
+        self.std = std
         self.name = name
         self.ret = ret
         self.args = list(args)        # [(ctype, argname)]
@@ -539,15 +540,15 @@ class Check:
         includes = self.includes if self.includes is not None else std_includes()
         by_mode = {}
         for k in kernels:
-            by_mode.setdefault(k.mode, []).append(k)
+            by_mode.setdefault((k.mode, k.std or self.std), []).append(k)
         chunks = []
-        for mode, ks in sorted(by_mode.items()):
+        for (mode, std), ks in sorted(by_mode.items()):
             n = max(1, min(len(ks), (len(ks) + self.chunk_size - 1) // self.chunk_size))
             n = max(n, min(NCPU, len(ks) // 24)) if len(ks) >= 48 else n
             per = (len(ks) + n - 1) // n
             for i in range(0, len(ks), per):
-                chunks.append(Chunk(len(chunks), ks[i:i + per], self.prelude, includes, self.workdir,
-                                    std=self.std, mode=mode))
+                chunks.append(Chunk(len(self.chunks) + len(chunks), ks[i:i + per], self.prelude, includes, self.workdir,
+                                    std=std, mode=mode))
         return chunks
 
     def lower_all(self, kernels, native=True):
